@@ -26,6 +26,7 @@ probes! {
     ev_matdot => "ev_fired.matrix_quire_dot",
     ev_poison => "ev_fired.nar_poison",
     ev_cancel_prev => "ev_fired.cancel_previous_term",
+    ev_boundary => "ev_fired.rounding_boundary_seeking_accumulate",
     cfg_poison => "ev_enabled_runs.nar_poison",
     cfg_restart => "ev_enabled_runs.restart_from_image",
     cfg_inject => "ev_enabled_runs.state_injection",
